@@ -66,6 +66,7 @@ class TofuWorld:
         self.speak_first = {}     # (h, p) -> True: TLS 1.2 server that answers before any request
         self.redirect_seq = {}    # (h, p) -> [target | None, ...] for its next connections (overrides redirect)
         self.fail_once = {}       # (h, p) -> 'rst' | 'close': only the NEXT connection fails, before the handshake
+        self.drop_once = {}       # (h, p) -> 'close' | 'rst': the NEXT connection takes the request and goes away without a byte
         self.records = []
         self.use_ec = False
         self.cut = 0
@@ -91,6 +92,9 @@ class TofuWorld:
                 peer.send_app(f"20 text/plain\r\nhello from {h}:{p}\n".encode())
             mode = self.reader_mode.get(key, "eager")
             fail = self.fail_mode.get(key)
+            drop = self.drop_once.pop(key, None)
+            if drop:
+                return {"script": [("wait_line",), ("close",) if drop == "close" else ("rst",)]}
             once = self.fail_once.pop(key, None)
             if once:
                 server.cert_queue.insert(0, server.cert_queue[0] if server.cert_queue else server.cert)
